@@ -38,14 +38,17 @@ def make_store(preds, repl):
     return st
 
 
-def parse(p, s):
-    signal.setitimer(signal.ITIMER_REAL, 2.0)
+def parse(p, s, limit=2.0):
+    signal.setitimer(signal.ITIMER_REAL, limit)
     try:
         r = p(s)
         return 'ok', enc_sent(r)
     except ParseError:
         return 'ParseError', []
     except Watchdog:
+        if limit < 60:
+            # a stall of the machine is not non-termination: judge only after a generous second attempt
+            return parse(p, s, 90.0)
         return 'NonTermination', []
     except Exception as e:
         return type(e).__name__, []
